@@ -32,7 +32,7 @@ def history(rng):
         return Map([(k, nest(d - 1)) for k in rng.sample(["k", "m", "z"], rng.randrange(1, 3))])
     a = nest(2)
     body = [Decl([(False, ["A"], a)])]
-    how = rng.randrange(8)
+    how = rng.randrange(10)
     path = None          # how the copy is reached through B when it is embedded in a larger value
     if how == 4:
         # a literal that embeds the variable: the declared value is a deep copy of the whole literal
@@ -47,6 +47,11 @@ def history(rng):
     elif how == 7:
         body += [Decl([(False, ["B"], Num(0))]), ExprS(AssignVar("B", Arr([Var("A")])))]
         path = Index(Var("B"), Num(1))
+    elif how >= 8:
+        # stored through a member-style target (the 首项 / 末项 setter of a list): a copy, like every other store
+        m = rng.choice(["首项", "末项"])
+        body += [Decl([(False, ["B"], Arr([Num(0), Num(0)]))]), ExprS(AssignMember(Var("B"), m, Var("A")))]
+        path = Member(Var("B"), m)
     elif how == 0:
         body.append(Decl([(False, ["B"], Var("A"))]))
     elif how == 1:
